@@ -2,7 +2,9 @@
 import itertools, os, glob
 
 WORDS = ['foo', 'bar', 'x', 'the quick', 'a b', '(a)', '1.', '2', 'Section', 'part', 'ITEM', 'P',
-         'אב', 'été', '\U0001F600', 'مرحبا', '-', 'a - b']
+         'אב', 'été', '\U0001F600', 'مرحبا', '-', 'a - b',
+         # not in Unicode normal form C / compatibility characters / separators that are not line breaks for the grammar
+         '90 \u212a', 'cafe\u0301', '\u2126', '\ufb01n', 'a\u2028b', 'c\u0085d', '\ufeff', 'x\u200by']
 
 def indentation_sequences(max_lines, widths):
     """All sequences of 1..max_lines widths."""
@@ -187,6 +189,8 @@ def gen_block(rng, W, ind, depth, out, allow_hier=True):
     elif r < 0.70:
         out.append(sp + 'BULLETS' + gen_attrs(rng, W, 0.1))
         for _ in range(rng.randint(1, 3)):
+            if rng.random() < 0.15:
+                out.append(sp + '  *'); continue          # an item without content
             out.append(sp + '  ' + rng.choice(['* ', '*', '']) + gen_inline(rng, W))
             if rng.random() < 0.2:
                 gen_blocks(rng, W, ind + 2, depth + 2, out, False, 1)
@@ -287,7 +291,7 @@ def mutate(rng, text, n=None):
         if not lines:
             lines = ['']
         i = rng.randrange(len(lines))
-        op = rng.randrange(12)
+        op = rng.randrange(14)
         if op == 0: del lines[i]
         elif op == 1: lines.insert(i, lines[i])
         elif op == 2 and len(lines) > 1:
@@ -312,6 +316,19 @@ def mutate(rng, text, n=None):
         elif op == 8: lines.insert(i, '')
         elif op == 9: lines.insert(i, ' ' * rng.randint(0, 6) + rng.choice(ALL_KEYWORDS) + rng.choice(['', ' 1', ' - h', ' x']))
         elif op == 10: lines[i] = lines[i] + rng.choice([' ', '  ', '\t'])
+        elif op == 12:
+            # a line that holds nothing one can see: a format character alone (BOM, zero-width space, word joiner, soft hyphen),
+            # half of the time as the very first line of the text
+            j = 0 if rng.random() < 0.5 else i
+            ind = len(lines[j]) - len(lines[j].lstrip(' '))
+            lines.insert(j, ' ' * rng.choice([0, 0, ind]) + rng.choice(['\ufeff', '\u200b', '\u2060', '\u00ad', '\ufeff ', '\u200e']))
+            if rng.random() < 0.3: lines.insert(j + 1, '')
+        elif op == 13:
+            # characters that Unicode normalisation, case folding or line splitting would change: not in normal form C, compatibility
+            # forms, line/paragraph separators and NEL inside a line
+            k = rng.randint(0, len(lines[i]))
+            lines[i] = lines[i][:k] + rng.choice(['\u212a', '\u2126', '\u212b', 'e\u0301', '\ufb01', '\uf900', '\u1e9b\u0323', '\u2028', '\u2029', '\u0085',
+                                                  '\u0130', '\u00df', '\u01c5']) + lines[i][k:]
         else:
             k = rng.randint(0, len(lines[i]))
             lines[i] = lines[i][:k]
@@ -391,6 +408,10 @@ def gen_akn_tree(rng, depth=0, pool=None, maxdepth=5, ids=True):
             attrs.append(['eId', e])
     if rng.random() < 0.1:
         attrs.append(['name', rng.choice(['x', 'hcontainer'])])
+    if ids and rng.random() < 0.12:
+        # attributes that point at an eId (of this document or not): a rewrite must leave them alone
+        target = rng.choice(pool) if pool and rng.random() < 0.7 else rng.choice(['sec_1', 'sec_2', 'chp_1', 'nowhere'])
+        attrs.append([rng.choice(['href', 'href', 'refersTo', 'by', 'for', 'src']), '#' + target])
     kids = []
     if rng.random() < 0.1:
         kids.append(['T', rng.choice(['txt', ' ', 'a b'])])
